@@ -6,3 +6,12 @@ Definition c01_der_encode_sig := der_encode_sig.
 Definition c01_der_decode_sig := der_decode_sig.
 Definition c01_sig := sig.
 Definition c01_sig_verify := sig_verify.
+
+(* sign, then verify the result under the public key d*G with the same (unreduced) digest:
+   by C01_sign_sound this is [Ok true] whenever signing succeeds *)
+Require Import Bits.Lib.Result.
+Definition c01_sign_then_verify (p a b n : BinNums.Z) (G : point) (draws : list BinNums.Z) (d z : BinNums.Z)
+  : result bool :=
+  bind (sign_with p a n G draws d z) (fun rs =>
+  let '(r, s, _) := rs in
+  bind (point_scalar_mul p a d G) (fun Q => verify p a b n G r s Q z)).
